@@ -65,6 +65,10 @@ pub fn check(tree: &Expr, acc: &mut Acc) {
 }
 
 pub fn check_with(tree: &Expr, threads: Option<u32>, acc: &mut Acc) {
+    check_on(tree, threads, &records(), acc)
+}
+
+pub fn check_on(tree: &Expr, threads: Option<u32>, recs: &[Record], acc: &mut Acc) {
     if tree.depth() > 20 {
         speclib::report::enter_case(|| format!("tree of depth {} with {} leaves: {}…", tree.depth(), tree.leaves(), tree.show().chars().take(120).collect::<String>()));
     }
@@ -84,8 +88,7 @@ pub fn check_with(tree: &Expr, threads: Option<u32>, acc: &mut Acc) {
             return;
         }
     };
-    let recs = records();
-    let obs = match observe(&text, &io, &recs) {
+    let obs = match observe(&text, &io, recs) {
         Ok(o) => o,
         Err(e) => {
             acc.violate(Violation::new("C09:policy-runtime-failure", format!("{}: {e}", tree.show()), wit()));
@@ -339,6 +342,34 @@ pub fn run(ctx: &Ctx) -> i32 {
     let sp = special_destinations();
     acc = acc.merge(speclib::report::par_items(&sp, |t, acc| check(t, acc)));
     acc = acc.merge(unsupported_actions());
+    // very large trees (node counts around 4096 and 65536; chains 4097 and 5000 deep) of -true
+    // tests with the only action last / first / absent
+    {
+        use speclib::trees::{balanced, left_chain, on_big_stack, Op};
+        let huge = on_big_stack(move || {
+            let mut h = Acc::new();
+            for n in [4095usize, 4096, 4097, 5000, 32768, 65535, 65536, 65537, 70000] {
+                let tests: Vec<Expr> = (0..n).map(|_| Expr::Test(Test::True)).collect();
+                let mut last = tests.clone();
+                last.push(Expr::Action(Action::Print));
+                let mut first = vec![Expr::Action(Action::FPrint("f".into()))];
+                first.extend(tests.iter().cloned());
+                for leaves in [&tests, &last, &first] {
+                    check(&balanced(Op::And, leaves), &mut h);
+                    check(&Expr::and(balanced(Op::Or, &tests), leaves.last().unwrap().clone()), &mut h);
+                    if n <= 5000 {
+                        check(&left_chain(Op::And, leaves), &mut h);
+                        check(&left_chain(Op::Or, leaves), &mut h);
+                    }
+                }
+            }
+            h
+        });
+        match huge {
+            Some(h) => acc = acc.merge(h),
+            None => acc.violate(Violation::new("C09:panic:very-large-tree", "compiling or running a tree of 4095..70000 leaves died".to_string(), json!({"kind": "huge"}))),
+        }
+    }
     // action-free expressions whose string arguments spell pieces of generated code: the implicit
     // print is decided by the tree, not by what the program text happens to contain
     let frags = crate::policy::harvest_fragments();
@@ -351,7 +382,15 @@ pub fn run(ctx: &Ctx) -> i32 {
             Expr::or(Expr::Test(Test::IPath(s.clone())), Expr::Test(Test::Name("x".into()))),
             Expr::and(Expr::Test(Test::Path(s.clone())), Expr::Action(Action::Quit)),
         ] {
-            check(&t, acc);
+            // a file on which every one of these tests holds, and the usual two
+            let mut hit = Record::distinct(1_700_000_000);
+            hit.name = s.clone();
+            hit.rel_path = s.clone();
+            hit.pools = vec![s.clone()];
+            hit.xattrs = vec![(s.clone(), "v".into()), ("user.hook".into(), s.clone())];
+            let mut recs = records();
+            recs.push(hit);
+            check_on(&t, None, &recs, acc);
         }
     }));
     acc.count("generated_looking_strings", frags.len() as u64);
